@@ -139,8 +139,18 @@ def generated_queries(tier='quick'):
             (f'ts-{mname}-model-left', f"SELECT * FROM mindsdb.{mname} AS m JOIN int1.tbl1 AS t WHERE t.t BETWEEN '2020-01-01' AND '2020-02-01'"),
             (f'ts-{mname}-create', f"CREATE TABLE int2.out1 (SELECT * FROM int1.tbl1 AS t JOIN mindsdb.{mname} AS m WHERE t.t > LATEST)"),
         ]
-    q += [
-    ]
+    # the "dbt form": the data side of a time-series join written as a sub-select (own WHERE / LIMIT), alone and below INSERT / CREATE TABLE;
+    # data table in an integration, unqualified (takes the target's integration), or in a project
+    for mname in ('tp', 'tpnone'):
+        for i, (inner_lim, outer_lim) in enumerate((('', ''), ('', ' LIMIT 5'), (' LIMIT 50', ' LIMIT 5'), (' LIMIT 3', ' LIMIT 5'), (' LIMIT 50', ''))):
+            q.append((f'dbt-{mname}-lim{i}', f"SELECT * FROM (SELECT * FROM int1.tbl1 AS ta WHERE ta.g = 1{inner_lim}) AS t1 JOIN mindsdb.{mname} AS tb WHERE t1.t > LATEST{outer_lim}"))
+        q += [
+            (f'dbt-{mname}-insert', f"INSERT INTO int2.out1 (SELECT * FROM (SELECT * FROM int1.tbl1 AS ta WHERE ta.g = 1) AS t1 JOIN mindsdb.{mname} AS tb WHERE t1.t > LATEST)"),
+            (f'dbt-{mname}-insert-unq', f"INSERT INTO int2.out1 (SELECT * FROM (SELECT * FROM tbl1 AS ta WHERE ta.g = 1) AS t1 JOIN mindsdb.{mname} AS tb WHERE t1.t > LATEST)"),
+            (f'dbt-{mname}-insert-proj', f"INSERT INTO int2.out1 (SELECT * FROM (SELECT * FROM proj.view1 AS ta WHERE ta.g = 1) AS t1 JOIN mindsdb.{mname} AS tb WHERE t1.t > LATEST)"),
+            (f'dbt-{mname}-create-proj', f"CREATE TABLE int2.out1 (SELECT * FROM (SELECT * FROM mindsdb.view1 AS ta) AS t1 JOIN mindsdb.{mname} AS tb WHERE t1.t > LATEST LIMIT 4)"),
+            (f'dbt-{mname}-gt', f"SELECT * FROM (SELECT * FROM int1.tbl1 AS ta) AS t1 JOIN mindsdb.{mname} AS tb WHERE t1.t > '2020-01-01' LIMIT 2"),
+        ]
     return q
 
 
